@@ -55,13 +55,70 @@ type tpath struct {
 	facts   []tfact
 	eqs     []symEq // callee parameter == call argument, for inlined helpers
 	ret     ssa.Instruction
-	clash   bool // the same helper was inlined twice with different arguments
+	clash   bool        // the same helper was inlined twice with different arguments
+	pending []*ssa.Call // slice helpers that changed the slice and whose result has not been assigned to S yet
 }
 
 type tcase struct {
 	e    *Engine
 	spec pairSpec
-	// substitution of callee params when inlining
+	// param mode: the function under analysis is a pure helper on a slice (insertSorted(keys, k) []string); its slice
+	// parameter stands for S, what it returns is what the caller assigns to S
+	sParam ssa.Value
+}
+
+// isS: v denotes the current contents of S – a load of the field, or in param mode the slice parameter and what has
+// been appended to it.
+func (tc *tcase) isS(v ssa.Value) bool {
+	v = strip(v)
+	if _, ok := loadOfFieldBase(v, tc.spec.S); ok {
+		return true
+	}
+	if pr, ok := v.(*ssa.Parameter); ok && tc.sParam == nil {
+		// facts carried over from an inlined slice helper talk about its slice parameter
+		if pi, isH := tc.sliceHelper(pr.Parent()); isH && pr.Parent().Params[pi] == pr {
+			return true
+		}
+	}
+	if tc.sParam == nil {
+		return false
+	}
+	if v == tc.sParam {
+		return true
+	}
+	if c, ok := v.(*ssa.Call); ok && staticCalleeName(c) == "builtin.append" {
+		return tc.isS(c.Call.Args[0])
+	}
+	return false
+}
+
+// sliceHelper: g is a package-local function with exactly one parameter of S's type whose first result has S's type
+// (keys in, keys out) and no access to the pair's fields. Returns the parameter's index.
+func (tc *tcase) sliceHelper(g *ssa.Function) (int, bool) {
+	if g == nil || g.Blocks == nil || tc.e.fnRole(g) != "core" || g.Signature.Results().Len() == 0 || tc.touches(g) {
+		return 0, false
+	}
+	st := tc.spec.S.Type()
+	if !types.Identical(g.Signature.Results().At(0).Type(), st) {
+		return 0, false
+	}
+	idx, n := 0, 0
+	for i, p := range g.Params {
+		if types.Identical(p.Type(), st) {
+			idx, n = i, n+1
+		}
+	}
+	return idx, n == 1
+}
+
+// fromCall: v is the (first) result of call c.
+func fromCall(v ssa.Value, c *ssa.Call) bool {
+	v = strip(v)
+	if v == ssa.Value(c) {
+		return true
+	}
+	ex, ok := v.(*ssa.Extract)
+	return ok && ex.Index == 0 && ex.Tuple == ssa.Value(c)
 }
 
 // baseOf returns the struct pointer/base value through which field f is accessed by load/store addr `addr`.
@@ -139,7 +196,7 @@ func (tc *tcase) searchOf(v ssa.Value) (ssa.Value, bool) {
 	if staticCalleeName(c) != "sort.SearchStrings" {
 		return nil, false
 	}
-	if _, ok := loadOfFieldBase(c.Call.Args[0], tc.spec.S); !ok {
+	if !tc.isS(c.Call.Args[0]) {
 		return nil, false
 	}
 	return c.Call.Args[1], true
@@ -162,81 +219,11 @@ func (tc *tcase) effectAt(in ssa.Instruction) (effect, bool, string) {
 			return effect{}, false, "assignment to " + M.Name() + " of something other than a fresh map"
 		}
 		if _, ok := fieldAddrOf(x.Addr, S); ok {
-			val := strip(x.Val)
-			if isEmptySliceValue(val) {
-				return effect{kind: effSliceClear, in: in}, true, ""
-			}
-			if c, ok := val.(*ssa.Call); ok && staticCalleeName(c) == "builtin.append" {
-				// append(load S, x) or append(S[:pos], S[pos+1:]...)
-				if _, ok := loadOfFieldBase(c.Call.Args[0], S); ok {
-					els := variadicElems(c.Call.Args[1])
-					if len(els) == 1 {
-						return effect{kind: effAppend, v: els[0], in: in}, true, ""
-					}
-					return effect{}, false, "append of other than exactly one element to " + S.Name()
-				}
-				if lo, ok := c.Call.Args[0].(*ssa.Slice); ok && lo.Low == nil && lo.High != nil {
-					if hi, ok := c.Call.Args[1].(*ssa.Slice); ok && hi.High == nil && hi.Low != nil {
-						if xk, ok := tc.searchOf(lo.High); ok {
-							if b, ok := hi.Low.(*ssa.BinOp); ok && b.Op == token.ADD && b.X == lo.High {
-								if n, ok := constInt(b.Y); ok && n == 1 {
-									return effect{kind: effRemove, v: xk, in: in}, true, ""
-								}
-							}
-						}
-					}
-				}
-				return effect{}, false, "unrecognised append form assigned to " + S.Name()
-			}
-			if sl, ok := val.(*ssa.Slice); ok {
-				// truncation S = S[:len(S)-1] after copy(S[pos:], S[pos+1:])
-				if _, ok := loadOfFieldBase(sl.X, S); ok && sl.Low == nil && sl.High != nil {
-					if b, ok := sl.High.(*ssa.BinOp); ok && b.Op == token.SUB {
-						if n, ok := constInt(b.Y); ok && n == 1 {
-							if lc, ok := b.X.(*ssa.Call); ok && staticCalleeName(lc) == "builtin.len" {
-								// find the dominating copy
-								var xk ssa.Value
-								instrs(in.Parent(), func(j ssa.Instruction) {
-									c, ok := j.(*ssa.Call)
-									if !ok || staticCalleeName(c) != "builtin.copy" || !idominates(c, in) {
-										return
-									}
-									dst, ok1 := c.Call.Args[0].(*ssa.Slice)
-									src, ok2 := c.Call.Args[1].(*ssa.Slice)
-									if !ok1 || !ok2 || dst.High != nil || src.High != nil || dst.Low == nil || src.Low == nil {
-										return
-									}
-									if _, ok := loadOfFieldBase(dst.X, S); !ok {
-										return
-									}
-									if _, ok := loadOfFieldBase(src.X, S); !ok {
-										return
-									}
-									k, ok := tc.searchOf(dst.Low)
-									if !ok {
-										return
-									}
-									if b2, ok := src.Low.(*ssa.BinOp); ok && b2.Op == token.ADD && b2.X == dst.Low {
-										if n2, ok := constInt(b2.Y); ok && n2 == 1 {
-											xk = k
-										}
-									}
-								})
-								if xk != nil {
-									return effect{kind: effRemove, v: xk, in: in}, true, ""
-								}
-								return effect{}, false, "truncation of " + S.Name() + " without the copy(S[pos:], S[pos+1:]) shift at pos=SearchStrings(S,x)"
-							}
-						}
-					}
-				}
-				return effect{}, false, "unrecognised re-slicing assigned to " + S.Name()
-			}
-			return effect{}, false, "unrecognised assignment to " + S.Name()
+			return tc.assigned(x.Val, in)
 		}
 		// element store S[pos] = y
 		if ia, ok := x.Addr.(*ssa.IndexAddr); ok {
-			if _, ok := loadOfFieldBase(ia.X, S); ok {
+			if tc.isS(ia.X) {
 				if c, ok := constString(x.Val); ok && c == "" {
 					// zeroing the vacated tail slot S[len-1] = "" (part of the remove idiom)
 					if b, ok := ia.Index.(*ssa.BinOp); ok && b.Op == token.SUB {
@@ -261,12 +248,107 @@ func (tc *tcase) effectAt(in ssa.Instruction) (effect, bool, string) {
 			if mi, ok := a.(*ssa.MakeInterface); ok {
 				a = mi.X
 			}
-			if _, ok := loadOfFieldBase(a, S); ok {
+			if tc.isS(a) {
 				return effect{kind: effSort, in: in}, true, ""
 			}
 		}
+		// param mode: keys = append(keys, x) has no store to recognise it by
+		if tc.sParam != nil && name == "builtin.append" && tc.isS(x.Call.Args[0]) {
+			els := variadicElems(x.Call.Args[1])
+			if len(els) == 1 {
+				return effect{kind: effAppend, v: els[0], in: in}, true, ""
+			}
+			return effect{}, false, "append of other than exactly one element to the " + S.Name() + " slice"
+		}
+	case *ssa.Return:
+		// param mode: what is returned becomes the new S
+		if tc.sParam != nil {
+			rv := retVals(x)
+			if len(rv) == 0 {
+				return effect{}, false, "slice helper returns nothing"
+			}
+			if tc.isS(rv[0]) {
+				return effect{}, false, "" // the parameter itself (possibly appended to – recorded at the append)
+			}
+			return tc.assigned(rv[0], in)
+		}
 	}
 	return effect{}, false, ""
+}
+
+func (tc *tcase) isSOK(v ssa.Value) (struct{}, bool) { return struct{}{}, tc.isS(v) }
+
+// assigned classifies the value that becomes the new S (stored into the field, or returned by a slice helper).
+func (tc *tcase) assigned(v ssa.Value, in ssa.Instruction) (effect, bool, string) {
+	S := tc.spec.S
+	val := strip(v)
+	if isEmptySliceValue(val) {
+		return effect{kind: effSliceClear, in: in}, true, ""
+	}
+	if c, ok := val.(*ssa.Call); ok && staticCalleeName(c) == "builtin.append" {
+		// append(load S, x) or append(S[:pos], S[pos+1:]...)
+		if _, ok := tc.isSOK(c.Call.Args[0]); ok {
+			els := variadicElems(c.Call.Args[1])
+			if len(els) == 1 {
+				return effect{kind: effAppend, v: els[0], in: in}, true, ""
+			}
+			return effect{}, false, "append of other than exactly one element to " + S.Name()
+		}
+		if lo, ok := c.Call.Args[0].(*ssa.Slice); ok && lo.Low == nil && lo.High != nil {
+			if hi, ok := c.Call.Args[1].(*ssa.Slice); ok && hi.High == nil && hi.Low != nil {
+				if xk, ok := tc.searchOf(lo.High); ok {
+					if b, ok := hi.Low.(*ssa.BinOp); ok && b.Op == token.ADD && b.X == lo.High {
+						if n, ok := constInt(b.Y); ok && n == 1 {
+							return effect{kind: effRemove, v: xk, in: in}, true, ""
+						}
+					}
+				}
+			}
+		}
+		return effect{}, false, "unrecognised append form assigned to " + S.Name()
+	}
+	if sl, ok := val.(*ssa.Slice); ok {
+		// truncation S = S[:len(S)-1] after copy(S[pos:], S[pos+1:])
+		if tc.isS(sl.X) && sl.Low == nil && sl.High != nil {
+			if b, ok := sl.High.(*ssa.BinOp); ok && b.Op == token.SUB {
+				if n, ok := constInt(b.Y); ok && n == 1 {
+					if lc, ok := b.X.(*ssa.Call); ok && staticCalleeName(lc) == "builtin.len" {
+						// find the dominating copy
+						var xk ssa.Value
+						instrs(in.Parent(), func(j ssa.Instruction) {
+							c, ok := j.(*ssa.Call)
+							if !ok || staticCalleeName(c) != "builtin.copy" || !idominates(c, in) {
+								return
+							}
+							dst, ok1 := c.Call.Args[0].(*ssa.Slice)
+							src, ok2 := c.Call.Args[1].(*ssa.Slice)
+							if !ok1 || !ok2 || dst.High != nil || src.High != nil || dst.Low == nil || src.Low == nil {
+								return
+							}
+							if !tc.isS(dst.X) || !tc.isS(src.X) {
+								return
+							}
+							k, ok := tc.searchOf(dst.Low)
+							if !ok {
+								return
+							}
+							if b2, ok := src.Low.(*ssa.BinOp); ok && b2.Op == token.ADD && b2.X == dst.Low {
+								if n2, ok := constInt(b2.Y); ok && n2 == 1 {
+									xk = k
+								}
+							}
+						})
+						if xk != nil {
+							return effect{kind: effRemove, v: xk, in: in}, true, ""
+						}
+						return effect{}, false, "truncation of " + S.Name() + " without the copy(S[pos:], S[pos+1:]) shift at pos=SearchStrings(S,x)"
+					}
+				}
+			}
+		}
+		return effect{}, false, "unrecognised re-slicing assigned to " + S.Name()
+	}
+	return effect{}, false, "unrecognised assignment to " + S.Name()
 }
 
 // enumerate acyclic paths (each block at most twice to allow one loop iteration).
@@ -282,6 +364,64 @@ func (tc *tcase) paths(fn *ssa.Function, limit int) ([]tpath, string) {
 				return
 			}
 			in := b.Instrs[i]
+			// S = helper(S, x): the helper's effects were applied when it was called; this is the assignment of its result
+			if st, isSt := in.(*ssa.Store); isSt && tc.sParam == nil {
+				if _, toS := fieldAddrOf(st.Addr, tc.spec.S); toS {
+					if hc := helperCallOf(st.Val); hc != nil {
+						if _, isH := tc.sliceHelper(hc.Call.StaticCallee()); isH {
+							var rest []*ssa.Call
+							for _, pc := range p.pending {
+								if pc != hc {
+									rest = append(rest, pc)
+								}
+							}
+							p.pending = rest
+							continue
+						}
+					}
+				}
+			}
+			if c, isCall := in.(*ssa.Call); isCall && !isBuiltin(c) && tc.sParam == nil {
+				if pi, isH := tc.sliceHelper(c.Call.StaticCallee()); isH && pi < len(c.Call.Args) && tc.isS(c.Call.Args[pi]) {
+					g := c.Call.StaticCallee()
+					sub, prob := (&tcase{e: tc.e, spec: tc.spec, sParam: g.Params[pi]}).paths(g, limit)
+					if prob != "" {
+						problem = prob
+						return
+					}
+					for _, sp := range sub {
+						q := p
+						q.effects = append(append([]effect{}, p.effects...), relocate(sp.effects, c)...)
+						q.facts = append(append([]tfact{}, p.facts...), sp.facts...)
+						q.eqs = append(append([]symEq{}, p.eqs...), sp.eqs...)
+						for j, gp := range g.Params {
+							if j < len(c.Call.Args) && j != pi {
+								for _, prev := range q.eqs {
+									if prev.a == ssa.Value(gp) && strip(prev.b) != strip(c.Call.Args[j]) {
+										q.clash = true
+									}
+								}
+								q.eqs = append(q.eqs, symEq{gp, c.Call.Args[j]})
+							}
+						}
+						// what the helper reports back on this path (found / not found flags)
+						if ret, ok := sp.ret.(*ssa.Return); ok {
+							for j, rv := range retVals(ret) {
+								if bc, isB := constBool(rv); isB && j > 0 {
+									for _, ex := range extractOf(c, j) {
+										q.facts = append(q.facts, tfact{ex, bc})
+									}
+								}
+							}
+						}
+						if len(sp.effects) > 0 {
+							q.pending = append(append([]*ssa.Call{}, p.pending...), c)
+						}
+						scan(b, i+1, q)
+					}
+					return
+				}
+			}
 			eff, ok, why := tc.effectAt(in)
 			if why != "" {
 				problem = fmt.Sprintf("%s at %s", why, tc.e.ipos(in))
@@ -289,7 +429,9 @@ func (tc *tcase) paths(fn *ssa.Function, limit int) ([]tpath, string) {
 			}
 			if ok {
 				p.effects = append(append([]effect{}, p.effects...), eff)
-				continue
+				if _, isRet := in.(*ssa.Return); !isRet {
+					continue
+				}
 			}
 			// calls to package-local functions with effects on the pair: inline their paths
 			if c, isCall := in.(*ssa.Call); isCall && !isBuiltin(c) {
@@ -323,12 +465,27 @@ func (tc *tcase) paths(fn *ssa.Function, limit int) ([]tpath, string) {
 			}
 			switch t := in.(type) {
 			case *ssa.Return:
+				if len(p.pending) > 0 {
+					problem = fmt.Sprintf("the slice changed by %s at %s is not assigned back to %s on a path to the return at %s", staticCalleeName(p.pending[0]), tc.e.ipos(p.pending[0]), tc.spec.S.Name(), tc.e.ipos(in))
+					return
+				}
 				p.ret = in
 				out = append(out, p)
 				return
 			case *ssa.Panic:
 				return
 			case *ssa.If:
+				// a flag reported by an inlined helper decides this branch on this path
+				if val, known := helperFlag(p.facts, t.Cond); known {
+					q := p
+					q.facts = append(append([]tfact{}, p.facts...), tfact{t.Cond, val})
+					if val {
+						walk(b.Succs[0], q)
+					} else {
+						walk(b.Succs[1], q)
+					}
+					return
+				}
 				pt, pf := p, p
 				pt.facts = append(append([]tfact{}, p.facts...), tfact{t.Cond, true})
 				pf.facts = append(append([]tfact{}, p.facts...), tfact{t.Cond, false})
@@ -359,6 +516,45 @@ func (tc *tcase) paths(fn *ssa.Function, limit int) ([]tpath, string) {
 		return nil, fmt.Sprintf("more than %d paths", limit)
 	}
 	return out, problem
+}
+
+// helperCallOf: v is the first result of a call.
+func helperCallOf(v ssa.Value) *ssa.Call {
+	v = strip(v)
+	if c, ok := v.(*ssa.Call); ok {
+		return c
+	}
+	if ex, ok := v.(*ssa.Extract); ok && ex.Index == 0 {
+		if c, ok := ex.Tuple.(*ssa.Call); ok {
+			return c
+		}
+	}
+	return nil
+}
+
+// helperFlag: cond is (a negation of) a result of an inlined helper whose value on this path is known.
+func helperFlag(facts []tfact, cond ssa.Value) (bool, bool) {
+	neg := false
+	for {
+		if u, ok := cond.(*ssa.UnOp); ok && u.Op == token.NOT {
+			cond, neg = u.X, !neg
+			continue
+		}
+		break
+	}
+	ex, ok := cond.(*ssa.Extract)
+	if !ok {
+		return false, false
+	}
+	if _, isCall := ex.Tuple.(*ssa.Call); !isCall {
+		return false, false
+	}
+	for i := len(facts) - 1; i >= 0; i-- {
+		if facts[i].v == ssa.Value(ex) {
+			return facts[i].val != neg, true
+		}
+	}
+	return false, false
 }
 
 func allSameEffects(ps []tpath) bool {
@@ -415,9 +611,30 @@ func sameVal(a, b ssa.Value, eqs []symEq) bool {
 	if a == b {
 		return true
 	}
-	for _, q := range eqs {
-		if (strip(q.a) == a && strip(q.b) == b) || (strip(q.a) == b && strip(q.b) == a) {
-			return true
+	// equalities compose (helper parameter == argument == caller's value …)
+	seen := map[ssa.Value]bool{a: true}
+	work := []ssa.Value{a}
+	for len(work) > 0 {
+		x := work[0]
+		work = work[1:]
+		for _, q := range eqs {
+			qa, qb := strip(q.a), strip(q.b)
+			var y ssa.Value
+			switch x {
+			case qa:
+				y = qb
+			case qb:
+				y = qa
+			default:
+				continue
+			}
+			if y == b {
+				return true
+			}
+			if !seen[y] {
+				seen[y] = true
+				work = append(work, y)
+			}
 		}
 	}
 	return false
